@@ -59,3 +59,84 @@ def c17(ctx):
     replay_or(ctx, "c17", "TraceUnAckQueue", "Trace_UnAckQueue.cfg", full)
     ctx.assumptions += ["payload tags and ids are projected by the harness (stanza string -> integer tag)",
                         "k is clamped to +-10^6 when logged (TLC integers are 32 bit); queues stay far shorter"]
+
+
+# ------------------------------------------------------------------ C19
+@check("C19")
+def c19(ctx):
+    def full():
+        quick = ctx.tier == "quick"
+        r = vlib.tlc_mc(ctx, "MC_Backoff", "MC_Backoff.cfg",
+                        consts=None if quick else {"MaxOps": 4})
+        scen = blines(r)
+        if not quick:
+            r2 = vlib.tlc_mc(ctx, "MC_Backoff", "MC_Backoff_grid.cfg")
+            scen += blines(r2)
+        if not scen:
+            raise Infra("TLC emitted no behaviours")
+        ctx.exhaustive = True
+        ctx.notes["bounds"] = "all histories of %d operations over {wait, reset, query(n)} for n in NsDef and the parameter grid of MC_Backoff.tla" % (3 if quick else 4)
+        out, nev, _ = vlib.run_driver(ctx, "c19", scen=scen, n=3000 if quick else 60000)
+        ctx.verdicts += vlib.tlc_trace(ctx, "TraceBackoff", "Trace_Backoff.cfg", out, nev)
+    replay_or(ctx, "c19", "TraceBackoff", "Trace_Backoff.cfg", full)
+    ctx.assumptions += ["durations are logged in whole milliseconds (a non-integral duration is itself reported)",
+                        "attempt numbers above 2*10^9 are logged as 2*10^9: the reference delay saturates after <= 64 multiplications",
+                        "caps restricted to values a time.Duration and a 32-bit TLC integer can hold"]
+
+
+# ------------------------------------------------------------------ C15
+@check("C15")
+def c15(ctx):
+    def full():
+        quick = ctx.tier == "quick"
+        r = vlib.tlc_mc(ctx, "Jid", "MC_Jid.cfg", consts={"MaxLen": 6 if quick else 8})
+        scen = blines(r)
+        if not scen:
+            raise Infra("TLC emitted no behaviours")
+        ctx.exhaustive = True
+        ctx.notes["bounds"] = "all strings of length <= %d over the classes {ordinary, @, /, whitespace, forbidden-in-local}, each concretised %d times" % (
+            6 if quick else 8, 4 if quick else 6)
+        out, nev, _ = vlib.run_driver(ctx, "c15", scen=scen, n=5000 if quick else 100000, args=["-variants", "4" if quick else "6"])
+        ctx.verdicts += vlib.tlc_trace(ctx, "TraceJid", "Trace_Jid.cfg", out, nev)
+    replay_or(ctx, "c15", "TraceJid", "Trace_Jid.cfg", full)
+    ctx.assumptions += ["the rune -> class table of the harness (cmd/driver/c15.go) is trusted",
+                        "not asserted: strings with '/' before the first '@' (excluded by the property); ' \" : < > inside a domain"]
+
+
+# ------------------------------------------------------------------ C20
+@check("C20")
+def c20(ctx):
+    def full():
+        quick = ctx.tier == "quick"
+        r = vlib.tlc_mc(ctx, "Address", "MC_Address.cfg")
+        scen = blines(r)
+        if not scen:
+            raise Infra("TLC emitted no behaviours")
+        ctx.exhaustive = True
+        ctx.notes["bounds"] = "every well-formed address form of Address.tla (scheme x host form x brackets x port x client/component), %s" % (
+            "12 concretisations each" if quick else "60 concretisations each and every port 1..65535 for the forms with a port")
+        args = ["-variants", "12"] if quick else ["-variants", "60", "-allports"]
+        out, nev, _ = vlib.run_driver(ctx, "c20", scen=scen, args=args)
+        ctx.verdicts += vlib.tlc_trace(ctx, "TraceAddress", "Trace_Address.cfg", out, nev)
+    replay_or(ctx, "c20", "TraceAddress", "Trace_Address.cfg", full)
+    ctx.assumptions += ["net.SplitHostPort and string equality of the host, computed in the harness, are trusted as the observation of 'valid host:port' and 'keeps the host'",
+                        "not asserted: bare IPv6 directly followed by :port (ambiguous), schemes other than ws:/wss:, port 0"]
+
+
+# ------------------------------------------------------------------ C06
+@check("C06")
+def c06(ctx):
+    def full():
+        quick = ctx.tier == "quick"
+        r = vlib.tlc_mc(ctx, "MC_Router", "MC_Router.cfg" if quick else "MC_Router_full.cfg", timeout=1500)
+        scen = blines(r)
+        if not scen:
+            raise Infra("TLC emitted no behaviours")
+        ctx.exhaustive = True
+        ctx.notes["bounds"] = ("all route tables of <= 2 routes over the matcher alphabet of MC_Router.tla (%s) x all packets" %
+                               ("quick alphabet" if quick else "full alphabet"))
+        out, nev, _ = vlib.run_driver(ctx, "c06", scen=scen, n=20000 if quick else 300000, timeout=1800)
+        ctx.verdicts += vlib.tlc_trace(ctx, "TraceRouter", "Trace_Router.cfg", out, nev, timeout=1800)
+    replay_or(ctx, "c06", "TraceRouter", "Trace_Router.cfg", full)
+    ctx.assumptions += ["replies are observed by re-scanning the serialised reply with a plain XML token scan",
+                        "not asserted: namespace matchers against an unregistered IQ payload; upper-case namespaces"]
